@@ -152,6 +152,8 @@ U("setopt_sec_oom_release", entry="h_setopt_sec_oom_release", func="cfg_setopt",
   label="bounded(first titled instance of an empty multi section; any allocation may fail; failing outcomes only; leak check)", props=["C07", "C18", "C02"], cost=10, **SECC)
 per_count("gettsec", replay="replay/store_sections.c", counts_quick=(0, 1, 2), counts_thorough=(0, 1, 2, 3), entry="h_gettsec", func="cfg_opt_gettsecidx, cfg_opt_gettsec", harness="harness/sections.c",
           cbmc=unw(8), label=SECTXT, props=["C09", "C11", "C02"], cost=20, **SECC)
+U("gettsec_long", entry="h_gettsec_long", func="cfg_opt_gettsecidx, cfg_opt_gettsec", harness="harness/sections.c", defs={"quick": ["-DNV=2"]}, cbmc=unw(8) + NOOOM,
+  label="bounded(two instances, titles and the title asked for 1..2 bytes over all bytes, either case rule)", props=["C09", "C11", "C02"], cost=10, **SECC)
 per_count("rmnsec", replay="replay/store_sections.c", counts_quick=(0, 1, 2, 3), counts_thorough=(0, 1, 2, 3), entry="h_rmnsec", func="cfg_opt_rmnsec", harness="harness/sections.c",
           cbmc=unw(8) + LEAK, label=SECTXT + "; index 0,1,2,7", props=["C09", "C10", "C07", "C02"], cost=30, **SECC)
 per_count("rmtsec", replay="replay/store_sections.c", counts_quick=(0, 1, 2, 3), counts_thorough=(0, 1, 2, 3), entry="h_rmtsec", func="cfg_opt_rmtsec", harness="harness/sections.c",
@@ -214,7 +216,7 @@ U("cfg_init", entry="h_cfg_init", func="cfg_init", cbmc=unw(6) + OOM + LEAK, rem
   carriers=["carriers/cfg_dupopt_array.c", "carriers/cfg_init_defaults.c"], label="proof (loop-free; callees by contract)", props=["C16", "C12", "C01", "C18", "C07", "C02"], cost=10, **SCH)
 U("cfg_free", entry="h_cfg_free", func="cfg_free, cfg_free_opt_array, cfg_free_value, cfg_free_searchpath", cbmc=unw(6) + NOOOM + LEAK,
   label="bounded(one option without values; optional fields present or absent; root or section)", props=["C07", "C08", "C02"], cost=20, **SCH)
-U("getopt_leaf", entry="h_getopt_leaf", func="cfg_getopt_leaf", cbmc=unw(6) + NOOOM, label="bounded(2 options, 1-byte names over all bytes)", props=["C01", "C11", "C02"], cost=10, **SCH)
+U("getopt_leaf", entry="h_getopt_leaf", func="cfg_getopt_leaf", cbmc=unw(6) + NOOOM, label="bounded(2 options, names and the name asked for 1..2 bytes over all bytes)", props=["C01", "C11", "C12", "C02"], cost=10, **SCH)
 U("addopt", entry="h_addopt", func="cfg_addopt", cbmc=unw(6) + OOM, label="bounded(<= 2 existing keys; any allocation may fail)", props=["C01", "C18", "C02"], cost=30, **SCH)
 
 # ------------------------------------------------------------------ path resolution (C11)
